@@ -51,7 +51,7 @@ def _val(v: t.Any, mode: str, lower: bool):
 def fingerprint(node: t.Any, mode: str = "exact"):
     """mode
     exact - everything as stored: args (missing / None / [] distinguished), comments, type, meta
-    serde - like exact but a missing arg, None and [] are one thing (serde drops empty values by design)
+    serde - like exact but a missing arg and None are one thing (serde transports no None); [] is a value of its own
     eq    - what the library's documented equality looks at: class + args, None/False/missing equal,
             strings of ordinary nodes case-insensitive, Identifier/Literal-style raw nodes as is,
             comments / type / meta ignored
@@ -77,7 +77,7 @@ def fingerprint(node: t.Any, mode: str = "exact"):
     items = []
     for k in sorted(node.args):
         v = node.args[k]
-        if mode == "serde" and (v is None or (type(v) is list and not v)):
+        if mode == "serde" and v is None:
             continue
         items.append((k, _val(v, mode, False)))
     typ = getattr(node, "_type", None)
